@@ -26,12 +26,18 @@ def run(ctx):
     strs += list(gens.escapes_in_context())
     strs += gens.random_mixed(ctx.rng, 3000 if ctx.quick else 50000)
     reqs = [("quote", [i, s]) for i in range(NQ) for s in strs]
-    outs = core.check_suite(ctx, "SQ-quoters", reqs, split=True,
+    outs = core.check_suite(ctx, "SQ-quoters", reqs, split=True, cross=True, cross_skip=core.kf_list(ctx), pred="c05_quote_pred",
                             nontrivial=lambda rs: set())
     ustrs = list(gens.unq_strings(2 if ctx.quick else 3))
     ustrs += gens.random_mixed(ctx.rng, 2000 if ctx.quick else 30000)
     ureqs = [("unquote", [i, s]) for i in range(NU) for s in ustrs]
-    core.check_suite(ctx, "SQ-unquoters", ureqs, split=True, nontrivial=lambda rs: set())
+    core.check_suite(ctx, "SQ-unquoters", ureqs, split=True, cross=True, nontrivial=lambda rs: set())
     big = gens.growth_boundary_strings(ctx.rng, ks=(1, 2) if ctx.quick else (1, 2, 3, 4))
     breqs = [("quote", [i, s]) for i in (1, 4) for s in big]
-    core.check_suite(ctx, "SQ-growth-boundaries", breqs, split=True, nontrivial=lambda rs: set())
+    core.check_suite(ctx, "SQ-growth-boundaries", breqs, split=True, cross=True, pred="c05_quote_pred", nontrivial=lambda rs: set())
+    # URL level: every observation is independent of the backend
+    import suites
+    progs = suites.standard_programs(ctx, 3000 if ctx.quick else 50000, 3000 if ctx.quick else 50000)
+    progs = [p for p in progs if "\\ud" not in repr(p)]      # lone surrogates: component level only (F1b)
+    core.check_suite(ctx, "C05-url-level", [("observe", [2, p]) for p in progs], split=True, cross=True,
+                     nontrivial=lambda rs: set())
